@@ -159,7 +159,9 @@ CALL = ['(1)', '()']
 SEQ_TYPES = ['xs:integer', 'xs:string?', 'xs:integer*', 'item()+', 'node()', 'element()', 'empty-sequence()', 'item()',
              'xs:double+', 'node()*', 'xs:decimal', 'attribute()?']
 SINGLE_TYPES = ['xs:integer', 'xs:string?', 'xs:double', 'xs:boolean', 'xs:decimal?']
-ARROWS = [['abs', '()'], ['concat', "('a')"], ['string', '()'], ['count', '()'], ['$f', '()'], ['fn:string', '()']]
+ARROWS = [['abs', '()'], ['concat', "('a')"], ['string', '()'], ['count', '()'], ['$f', '()'], ['fn:string', '()'],
+          # the ParenthesizedExpr alternative of ArrowFunctionSpecifier
+          ['(string#1)', '()'], ['(concat#2)', "('b')"], ['($f)', '()'], ['Q{http://www.w3.org/2005/xpath-functions}string', '()']]
 IN_EXPR = ['a', '1 to 3', '(1, 2)', '$x', 'a | b', '$z']
 
 
@@ -643,7 +645,7 @@ def where_name(tok, d=None):
     if d is not None:
         chain, sym, leaf = d
         if '=>' in chain:
-            return '=>'
+            return '=>' if tok.symbol != '=>' or len(tok) < 2 else where_name(tok)
         for i, c in enumerate(chain):
             if c in TYPE_PARENTS:
                 return sym_name(chain[i + 1] if i + 1 < len(chain) else sym)
@@ -652,6 +654,11 @@ def where_name(tok, d=None):
         return sym_name(chain[-1])
     if tok.symbol in TYPE_PARENTS and len(tok) > 1:
         return sym_name(tok[1].symbol)
+    if tok.symbol == '=>' and len(tok) > 1:
+        # the form of the function specifier decides which branch of Token.source writes it
+        spec = tok[1].symbol
+        kind = {'(': 'parenthesized', '$': 'variable', ':': 'prefixed-name', 'Q{': 'braced-name'}.get(spec, 'name')
+        return '=>/specifier:' + kind
     return sym_name(tok.symbol)
 
 
